@@ -2,6 +2,8 @@
 package c14
 
 import (
+	"bufio"
+	"io"
 	"fmt"
 	"strconv"
 
@@ -39,7 +41,13 @@ func triMesh(V, T int, uv bool) modeling.Mesh {
 }
 
 // every strict prefix of a binary PLY file is rejected
-func plyTrunc(format ply.Format, points bool) {
+func plyTrunc(format ply.Format, points bool) { plyTruncVia(format, points, false) }
+
+// the same through a bufio.Reader (what MeshReader.Load hands to the parser): a reader type the parser may treat
+// specially must not change the verdict
+func ZZ_C14_PlyLEPointsBufio() { plyTruncVia(ply.BinaryLittleEndian, true, true) }
+
+func plyTruncVia(format ply.Format, points bool, buffered bool) {
 	var m modeling.Mesh
 	if points {
 		V := 1 + zz.Choose("V", zz.Bound("V"))
@@ -57,7 +65,11 @@ func plyTrunc(format ply.Format, points bool) {
 	L := buf.Len()
 	cut := zz.Int("cut", 0, L-1)
 	zz.Reach("file")
-	back, err := ply.ReadMesh(buf.Reader(cut))
+	var in io.Reader = buf.Reader(cut)
+	if buffered {
+		in = bufio.NewReader(in)
+	}
+	back, err := ply.ReadMesh(in)
 	zz.Assert(err != nil, "a strict prefix of a binary PLY file was accepted")
 	if err == nil {
 		zz.Assert(back.AttributeLength() < m.AttributeLength() || back.PrimitiveCount() < m.PrimitiveCount(), "truncated file returned the complete mesh")
